@@ -342,7 +342,12 @@ fn resolve(st: &mut TypeCheckerState, v: TypeVariable, depth: usize, seen: &mut 
 
 pub fn eval_unify(payload: &str) -> String {
     let t: Vec<&str> = payload.split_whitespace().collect();
-    set_order(t[0]);
+    // `<order>[@<poll interval>]`
+    let (order, every) = match t[0].split_once('@') {
+        Some((o, e)) => (o, e.parse::<usize>().expect("interval")),
+        None => (t[0], 1),
+    };
+    set_order(order);
     let nvars: usize = t[1].parse().unwrap();
     let budget: usize = t[2].parse().unwrap();
     let mut st = fresh_state(nvars);
@@ -350,7 +355,7 @@ pub fn eval_unify(payload: &str) -> String {
         let (v, e) = j.split_once('>').expect("judgement");
         st.infer(tv(v.parse().unwrap()), parse_te(e));
     }
-    let wd = Rc::new(CountingWatchdog { polls: Cell::new(0), stop_at: budget, every: 1 });
+    let wd = Rc::new(CountingWatchdog { polls: Cell::new(0), stop_at: budget, every });
     let dynwd: Rc<dyn Watchdog> = wd.clone();
     let res = unify(&mut st, &dynwd);
     set_order("natural");
@@ -379,7 +384,7 @@ pub fn eval_unify(payload: &str) -> String {
     cl.sort();
     let cls: Vec<String> = cl.iter().map(|c| c.iter().map(|x| x.to_string()).collect::<Vec<_>>().join(",")).collect();
     let types: Vec<String> = (0..nvars).map(|v| format!("{v}:{}", resolve(&mut st, tv(v), 6, &mut vec![]))).collect();
-    format!("{head} classes=[{}] types=[{}]", cls.join("|"), types.join(";"))
+    format!("{head} polls={polls} classes=[{}] types=[{}]", cls.join("|"), types.join(";"))
 }
 
 fn gen_judgements(r: &mut Rng, nvars: usize, packed: bool, cyclic: bool) -> Vec<String> {
@@ -422,7 +427,14 @@ pub fn generate_unify(seed: u64, n: usize, _tier: &str, emit: &mut dyn FnMut(Str
         let packed = r.chance(1, 3);
         let cyclic = r.chance(1, 5);
         let js = gen_judgements(&mut r, nvars, packed, cyclic);
-        emit(format!("sorted {nvars} 3000 {}", js.join(" ")));
+        // polling interval: 1 for most, otherwise anything from 2 up (C13: the unification loop
+        // polls once per `interval` classes that hold evidence)
+        let every = if r.chance(1, 2) { 1 } else { [2usize, 3, 5, 7, 10, 100][r.below(6)] };
+        if every == 1 {
+            emit(format!("sorted {nvars} 3000 {}", js.join(" ")));
+        } else {
+            emit(format!("sorted@{every} {nvars} 3000 {}", js.join(" ")));
+        }
     }
 }
 
